@@ -21,7 +21,8 @@ ASSUMPTIONS = [
     "dump to a path with an unsupported format: only the ValueError is judged, not whether an empty file was created",
 ]
 REQUIRED = {"cell.load": 100, "cell.load-again-after-edit": 30, "cell.load-after-file-replaced": 9, "cell.loads": 60, "cell.load_all": 60, "cell.loads_all": 40, "cell.dump": 100, "cell.dumps": 20,
-            "cell.error": 40, "name-override.checked": 60, "dump.stream-left-open": 20, "dump.append-vs-truncate": 10}
+            "cell.error": 40, "dump.writer-option-forwarded": 10, "order.cdxml-after-other-entry-points": 1,
+            "order.errors-after-other-entry-points": 1, "name-override.checked": 60, "dump.stream-left-open": 20, "dump.append-vs-truncate": 10}
 CHUNK_TIMEOUT = 600
 TECHNIQUE = "runtime monitoring: differential oracle, public entry points vs class-level codecs over the full call matrix"
 LEVEL_TEXT = ("The call matrix is small and is executed completely on every run for each input; each cell's result is compared "
@@ -68,8 +69,20 @@ def run_chunk(spec, ctx):
     elif spec["kind"] == "cdxml":
         run_cdxml(ctx)
         run_replaced_files(ctx)
+        # the entry points are independent of each other: what one of them was asked before (also a refused request)
+        # does not change what another one answers -- the cdxml cells once more after every other entry point ran
+        run_errors(ctx, again="before-second-cdxml-pass")
+        p = ml.files.ROOT / "dendrobine.mol2"
+        matrix(ctx, ("bundled-in-cdxml-chunk", "dendrobine", "mol2"), p.read_text(), "mol2")
+        ctx.count("order.cdxml-after-other-entry-points")
+        run_cdxml(ctx, again="second-pass")
     else:
         run_errors(ctx)
+        p = ml.files.ROOT / "pentane_confs.xyz"
+        if p.exists():
+            matrix(ctx, ("bundled-in-error-chunk", "pentane_confs", "xyz"), p.read_text(), "xyz")
+        ctx.count("order.errors-after-other-entry-points")
+        run_errors(ctx, again="second-pass")
 
 
 def same(ctx, case, key, a, b, **kw):
@@ -202,6 +215,31 @@ def matrix(ctx, inp, text, fmt):
                     ctx.violation(f"dumps:{ofmt}:{oname}:raises:{type(gerr).__name__}", case=case, err=repr(gerr)[:200])
                 elif got != expected:
                     ctx.violation(f"dumps:{ofmt}:{oname}:text-differs-from-class-method", case=case)
+            # writer options are passed on to the class method whatever the target kind
+            case = inp + ("dump", "writer-options", oname, ofmt)
+            if ofmt == "xyz" and oname != "ConformerEnsemble" and ctx.want(case):
+                ctx.count("cell.dump")
+                ctx.count("dump.writer-option-forwarded")
+                ctx.case(case, dkey=case, nontrivial=n_mols >= 2, sample={"call": "dump(..., write_header=False)", "obj": oname})
+                exp_nh = obj.dumps_xyz(write_header=False)
+                got, gerr = attempt(lambda: ml.dumps(obj, "xyz", write_header=False))
+                if gerr is not None or got != exp_nh:
+                    ctx.violation("dumps:xyz:writer-option-not-forwarded", case=case, err=repr(gerr)[:150])
+                buf = io.StringIO()
+                _, gerr = attempt(lambda: ml.dump(obj, buf, "xyz", write_header=False))
+                if gerr is not None or buf.getvalue() != exp_nh:
+                    ctx.violation("dump:stream:xyz:writer-option-not-forwarded", case=case, err=repr(gerr)[:150])
+                for tkind in ("Path", "str", "Path-suffix-only"):
+                    out = ctx.tmp / f"opt-{oname}-{tkind}.xyz"
+                    if out.exists():
+                        out.unlink()
+                    tgt = str(out) if tkind == "str" else out
+                    if tkind == "Path-suffix-only":
+                        _, gerr = attempt(lambda: ml.dump(obj, tgt, write_header=False))
+                    else:
+                        _, gerr = attempt(lambda: ml.dump(obj, tgt, "xyz", write_header=False, mode="w"))
+                    if gerr is not None or out.read_text() != exp_nh:
+                        ctx.violation("dump:path:xyz:writer-option-not-forwarded", case=case, target=tkind, err=repr(gerr)[:150])
             # stream targets
             case = inp + ("dump", "stream", oname, ofmt)
             if ctx.want(case):
@@ -372,7 +410,7 @@ def run_replaced_files(ctx):
                     same(ctx, case, f"load-after-file-replaced:{fmt}", got1, want[0])
 
 
-def run_cdxml(ctx):
+def run_cdxml(ctx, again=None):
     import molli as ml
     from vmon.snap import snap, diff
 
@@ -384,7 +422,7 @@ def run_cdxml(ctx):
         oname = oarg if isinstance(oarg, str) else oarg.__name__
         for name in (None, "Z"):
             for key in [None, 0, 1, len(keys) - 1] + keys[:6]:     # a key is a label or a position (CDXMLFile accepts both)
-                case = ("cdxml", oname, name, key)
+                case = ("cdxml", oname, name, key) + ((again,) if again else ())
                 if not ctx.want(case):
                     continue
                 ctx.count("cell.load")
@@ -411,7 +449,7 @@ def run_cdxml(ctx):
                         ctx.violation(f"load:cdxml:{oname}:name-override-ignored", case=case, got=got.name, key_given=key is not None)
     # load_all
     for name in (None, "Z"):
-        case = ("cdxml", "load_all", name)
+        case = ("cdxml", "load_all", name) + ((again,) if again else ())
         ctx.count("cell.load_all")
         ctx.case(case, dkey=case, nontrivial=True)
         got, gerr = attempt(lambda: ml.load_all(p, name=name))
@@ -424,9 +462,27 @@ def run_cdxml(ctx):
             ctx.violation("load_all:cdxml:name-override-ignored", case=case)
 
 
-def run_errors(ctx):
+def run_errors(ctx, again=None):
     import io
     import molli as ml
+
+    _case = ctx.case
+    _want = ctx.want
+    if again:       # the same cells under another case id
+        class _Ctx:
+            def __getattr__(self, n):
+                return getattr(_outer, n)
+
+            def case(self, case, *a, **k):
+                return _outer.case(tuple(case) + (again,), *a, **k)
+
+            def want(self, case):
+                return _outer.want(tuple(case) + (again,))
+
+            def violation(self, key, /, case=None, **d):
+                return _outer.violation(key, case=None if case is None else tuple(case) + (again,), **d)
+        _outer = ctx
+        ctx = _Ctx()
 
     mol = ml.Molecule.load_mol2(ml.files.ROOT / "dendrobine.mol2")
     text = mol.dumps_mol2()
